@@ -68,9 +68,9 @@ Print Assumptions C09_binary_model_is_the_model.
 (** col(c) / col_mut(c) of a well-formed receiver of ANY size, then ANY finite history
     (indexing included, every n, i : N): never fails, prints what the two-counter ideal prints *)
 Theorem C09_any_size_any_history :
-  forall k (v : bview) (c : N) cs,
+  forall dbg k (v : bview) (c : N) cs,
   wf_view (view_of_b v) -> (c < bvcols v)%N -> (k = KOwned -> bvstride v = bvcols v) ->
-  exists it o s', bv_col k v c = Ok it /\ bcalls (BCol it) cs = Ok (o, s') /\
+  exists it o s', bv_col k v c = Ok it /\ bcalls dbg (BCol it) cs = Ok (o, s') /\
     o = fst (BigIterSpec.ideal_calls (bvrows v) [] true (0%N, 0%N) cs).
 Proof. exact big_col_end_to_end. Qed.
 Print Assumptions C09_any_size_any_history.
